@@ -210,6 +210,7 @@ NOTES = {
     'C02-add-mps-leading-charge-unchecked': 'round 7, first run: MISSED (operands always came from the same sector). r_C02 also tries sums of operands with different leading bond labels: the call has to refuse them, or what it returns has to be well formed',
     'C02-mps-init-mask-only-if-charged-sites': 'round 7, first run: MISSED. r_C02 constructs objects with all-zero physical labels and several different labels per bond',
     'C07-spin-explicit-isclose-hopping': 'round 7, first run: MISSED (coefficients were of order one and comparisons had an absolute floor). r_C07 rescales the coefficient tensors by 1e-9 or 1e7 in every fourth case and compares relative to the norm of the reference operator',
+    'C05-halfchain-hash-key': 'round 7, first run: MISSED (operator ids were small non-negative integers). Every eleventh chain case of r_C05 relabels operator ids to negative and very large integers, among them -1 and -2, whose hash values coincide in CPython',
     'C17-optree-node-children-alias': 'round 5, first run: MISSED. r_C17 builds two tree nodes from one list and extends one; engine F distinguishes keeping the *elements* of a list (allowed for nodes) from keeping the list itself',
     'C06-zero-coeff-filter-tolerance': 'first run: MISSED. r_C06 now includes parameter points scaled by 1e-9 ... 1e+12 (every parameter value is legal)',
 }
